@@ -895,18 +895,60 @@ def clause_i(c: Check):
                   and pc.id == conf.positional_params()[1].arg
     c.expect(okc, 'C01-i', 'execute_configuration_phase/plumbing',
              'configuration phase is not run with the configuration executor, step and contents', conf.loc())
-    # conf-phase status translation is name preserving
-    tr = fo.fold_path(FE + ':_STATUS_TRANSLATION')
-    c.require(isinstance(tr, dict), 'C01-i: _STATUS_TRANSLATION not folded')
-    for k, v in tr.items():
-        if isinstance(k, EnumMember) and isinstance(v, EnumMember):
-            c.expect(k.name == v.name, 'C01-i', 'conf-status-translation/' + k.name,
-                     'configuration failure %s is reported as %s' % (k.name, v.name), conf.loc())
+    # conf-phase status translation is name preserving: the failure of a configuration instruction is reported as the
+    # kind of failure it is - whatever `status = ...` an earlier configuration instruction has set (decision table by
+    # abstract evaluation of the translating function, however it is written: dictionary, helper, if-chain)
+    from ..absint import State
+    import itertools
+    nf = ix.func(FE + ':new_configuration_phase_failure_from')
+    psf = ix.cls('exactly_lib.execution.result:PhaseStepFailure')
+    efs = fo.enum_members(ix.cls('exactly_lib.execution.result:ExecutionFailureStatus'))
+    fers_cls = ix.cls('exactly_lib.execution.full_execution.result:FullExeResult')
     svh_e = ix.cls('exactly_lib.test_case.result.svh:SuccessOrValidationErrorOrHardErrorEnum')
-    need = {n for n in fo.enum_members(svh_e) if n != 'SUCCESS'} | {'INTERNAL_ERROR'}
-    have = {k.name for k in tr if isinstance(k, EnumMember)}
-    c.expect(need <= have, 'C01-i', 'conf-status-translation/total',
-             'configuration failure kinds without translation: %s' % sorted(need - have), conf.loc())
+    need = sorted({n for n in fo.enum_members(svh_e) if n != 'SUCCESS'} | {'INTERNAL_ERROR'})
+    other_params = []
+    fail_param = None
+    for prm in nf.positional_params():
+        ann = unparse(prm.annotation).split('.')[-1] if prm.annotation is not None else ''
+        if ann == 'PhaseStepFailure':
+            fail_param = prm.arg
+        else:
+            d_ = ix.resolve_static(nf.module, nf, prm.annotation) if prm.annotation is not None else None
+            c.require(isinstance(d_, ClassDef) and fo.enum_members(d_),
+                      'C01-i: parameter %s of new_configuration_phase_failure_from is not an enumeration' % prm.arg)
+            other_params.append((prm.arg, fo.enum_members(d_)))
+    c.require(fail_param is not None, 'C01-i: new_configuration_phase_failure_from takes no PhaseStepFailure')
+
+    class HT(Hooks):
+        def inline(self, fd, st):
+            return fd.module.name.startswith('exactly_lib.execution.') and not fd.is_generator
+
+    n_tr = 0
+    for kind in need:
+        c.require(kind in efs, 'C01-i: ExecutionFailureStatus has no member %s' % kind)
+        for combo in itertools.product(*[sorted(members.items()) for _, members in other_params]):
+            it = Interp(ix, fo, HT())
+            insts = it.instantiate(psf, State(), {'status': K(efs[kind]), 'failure_info': Sym('failure-info', nullness=False)})
+            c.require(len(insts) == 1, 'C01-i: constructor of PhaseStepFailure has %d paths' % len(insts))
+            obj, st = insts[0]
+            args = {fail_param: obj}
+            for (pn, _), (mn, mv) in zip(other_params, combo):
+                args[pn] = K(mv)
+            label = kind + ''.join('/%s=%s' % (pn, mn) for (pn, _), (mn, mv) in zip(other_params, combo))
+            outs = set()
+            for p in it.run_function(nf, args, st):
+                n_tr += 1
+                if p.kind != 'return':
+                    outs.add(p.kind)
+                    continue
+                con = util.constructed(ix, p.val)
+                v = con[3].get('status') if con and con[0] == fers_cls.key else None
+                outs.add(v.v.name if isinstance(v, K) and isinstance(v.v, EnumMember) else '?' + util.describe(v if v is not None else p.val))
+            c.expect(outs == {kind}, 'C01-i', 'conf-status-translation/' + label,
+                     'a configuration instruction that fails with %s%s is reported as %s' % (
+                         kind, ''.join(' after %s = %s' % (pn, mn) for (pn, _), (mn, mv) in zip(other_params, combo)),
+                         sorted(outs)), nf.loc())
+    c.floor('C01-i', 'evaluations of the configuration failure translation', n_tr, 3)
 
 
 # ---------------------------------------------------------------- j
